@@ -777,6 +777,12 @@ func (s *ResettableKeystore) ResetCids(ctx context.Context, keysChan <-chan cid.
 		case <-s.done:
 			// Worker is done; underlying datastore may already be closed,
 			// so we cannot run the swap. Close() handles altDs teardown.
+			// The keystore keeps its previous contents: don't report a
+			// reset that never took effect as a success.
+			if success {
+				success = false
+				err = ErrClosed
+			}
 		}
 	}()
 
